@@ -27,7 +27,7 @@ CASE_LIMIT = {"quick": 240, "thorough": 400}
 
 PROFILE = {"methods": ["MS", "SS", "DC"], "intgs": ["rk", "expl_euler"], "alg": 0.2,
            "grids": ["uniform", "geometric", "function"], "t0_kinds": ["num", "free"], "T_kinds": ["num", "free"],
-           "N": [1, 2, 3], "M": [1, 2], "degrees": [1, 2, 3], "allow_matrix": False, "quad_states": 0.0, "max_states": 2,
+           "N": [1, 2, 3], "M": [1, 2], "degrees": [1, 2, 3], "allow_matrix": False, "quad_states": 0.3, "max_states": 2,
            "time_in_rhs": 0.5}
 
 
@@ -70,6 +70,12 @@ def gen_cases(rng, tier):
             sp["constraints"] = [ocpgen.gen_constraint(rng, sp, 100 * (k + 1) + j, grids=["control", "integrator"],
                                                        allow_offsets=False) for j in range(rng.randint(1, 2))]
             sp["objective"] = ocpgen.gen_objective(rng, sp, rng.randint(1, 2))
+            if rng.random() < 0.4:
+                # the stage's own step lengths inside a term and a constraint
+                xl = rng.choice(sp["leaves"]["x"])
+                sp["objective"].append(["sum", ["*", ["DTc"], ["sq", xl]]])
+                sp["constraints"].append({"cid": 100 * (k + 1) + 50, "form": "le", "grid": "integrator",
+                                          "lhs": [["*", ["DT"], xl]], "rhs": [["c", ocpgen.rnd(rng, 0.5, 2.0)]]})
         couplings = []
         for k in range(nst - 1):
             a, b_ = stages[k], stages[k + 1]
